@@ -521,12 +521,19 @@ class C04(ConnProp):
             pre = b''.join(reqgen.gen_request(rng, 51200)[0] for _ in range(rng.randint(0, 2)))
             ll = rng.choice([1000, 1020, 1021, 1022, 1023, 1024, 1025, 1026, 1027, 1030, 1100])   # incl. CRLF
             where = rng.choice(['reqline', 'header', 'header2'])
+
+            def fill(k, ch):
+                # a line beyond the limit is rejected whatever it contains: also fill it with bytes that are not UTF-8
+                if ll <= 1024 or rng.random() < 0.5:
+                    return ch * k
+                alpha = rng.choice([b'\xff', b'\x80\xff', b'\xc3', b'a\xff', b'\xc3\xa9\xff', bytes(range(128, 256)), b'v\xe2\x82'])
+                return bytes(rng.choice(alpha) for _ in range(k))
             if where == 'reqline':
-                u = b'/' + b'u' * (ll - 2 - len(b'GET  HTTP/1.1') - 1)
+                u = b'/' + fill(ll - 2 - len(b'GET  HTTP/1.1') - 1, b'u')
                 bad = b'GET ' + u + b' HTTP/1.1\r\n\r\n'
             else:
-                name = b'X-Long: '
-                line = name + b'v' * (ll - 2 - len(name))
+                name = rng.choice([b'X-Long: ', b'h: ', b'h:'] + ([b'Content-Length: '] if ll > 1024 else []))
+                line = name + fill(ll - 2 - len(name), b'v')
                 extra = b'X-A: b\r\n' if where == 'header2' else b''
                 bad = b'GET / HTTP/1.1\r\n' + extra + line + b'\r\n\r\n'
             stream = pre + bad + reqgen.gen_request(rng, 51200)[0]
@@ -699,6 +706,31 @@ class C03Conn:
                     ops.append([2, rng.choice([1, 100, 1 << 20])])
             ops += [[2, 1 << 20], [2, 1 << 20], [0, 5, 0]]
             out.append(mk(51200, stream, ops, {'kind': 'conn-random-ops'}))
+        # lines that reach the window size and are not UTF-8 (error paths that render the buffer as text), in each
+        # parser state, under schedules that first park a partial line at the front of the window
+        for _ in range(150 if tier == 'quick' else 8000):
+            ll = rng.choice([1022, 1023, 1024, 1025, 1026, 1100, 2100])
+            alpha = rng.choice([b'\xff', b'\x80\xff', b'\xc3', b'a\xff', b'\xc3\xa9\xff', bytes(range(128, 256)), b'v\xe2\x82', b'\xf0\x9f'])
+            where = rng.choice(['reqline', 'header', 'header2'])
+            if where == 'reqline':
+                bad = b'GET /' + bytes(rng.choice(alpha) for _ in range(ll)) + b' HTTP/1.1\r\n\r\n'
+            else:
+                name = rng.choice([b'h: ', b'h:', b'X-Long: ', b'Content-Length:'])
+                extra = b'X-A: b\r\n' if where == 'header2' else b''
+                bad = rng.choice([b'GET / HTTP/1.1\r\n', b'PUT /abc HTTP/1.0\r\n']) + extra + name + \
+                    bytes(rng.choice(alpha) for _ in range(max(0, ll - 2 - len(name)))) + b'\r\n\r\n'
+            pre = b''.join(reqgen.gen_request(rng, 51200)[0] for _ in range(rng.randint(0, 1)))
+            stream = pre + bad + reqgen.gen_request(rng, 51200)[0]
+            first = len(pre) + rng.choice([1, 5, 16, 17, 18, 19, 20, 30])
+            style = rng.random()
+            if style < 0.4:
+                ops = [[0, first, 0]] + [[0, rng.choice([1024, 1000, 500, 4096]), 0] for _ in range(12)]
+            elif style < 0.7:
+                ops = [[0, rng.choice([1, 3, 7, 100, 1023, 1024]), 0] for _ in range(40)]
+            else:
+                ops = [[2, 1 << 20]]
+            ops += [[2, 1 << 20], [3, 100000], [3, 100000]]
+            out.append(mk(51200, stream, ops, {'kind': 'long-nonutf8-line'}))
         # long streams up to ~60 KiB
         for _ in range(6 if tier == 'quick' else 300):
             n = rng.choice([20000, 40000, 61440])
